@@ -13,16 +13,22 @@ pub assume_specification<T, F: std::ops::FnOnce() -> T + std::marker::Destruct> 
      *final(o) == Some(*final(r)),
 ;
 
+pub assume_specification<T, A: core::alloc::Allocator> [ Vec::<T, A>::into_boxed_slice ] (v: Vec<T, A>) -> (r: Box<[T], A>)
+  ensures r@ == v@;
+
 const AUX_TOKEN : u8 = 15 ;
+
 
 // ================= coupons (hll/mod.rs) =================
 const KEY_BITS_26 : u32 = 26 ;
+
 
 exec const KEY_MASK_26 : u32 ensures KEY_MASK_26 == 0x3ffffff {
 proof {
 assert ( ( 1u32 << 26u32 ) - 1 == 0x3ffffff ) by ( bit_vector ) ;
 }
 ( 1 << KEY_BITS_26 ) - 1 }
+
 
 
 spec fn cslot(c: u32) -> u32 { c & 0x3ffffff }
@@ -34,11 +40,13 @@ fn get_slot ( coupon : u32 ) -> ( r : u32 ) ensures r == cslot ( coupon ) {
 coupon & KEY_MASK_26 }
 
 
+
 fn get_value ( coupon : u32 ) -> ( r : u8 ) ensures r == cval ( coupon ) , r <= 63 {
 proof {
 assert ( ( coupon >> 26 ) <= 63 ) by ( bit_vector ) ;
 }
 ( coupon >> KEY_BITS_26 ) as u8 }
+
 
 
 // ================= AuxMap by contract (every function below is VERIFIED against these contracts in unit hll_auxmap,
@@ -133,6 +141,7 @@ struct Array4 {
 lg_config_k : u8 , bytes : Box < [ u8 ] > , cur_min : u8 , num_at_cur_min : u32 , aux_map : Option < AuxMap > , estimator : HipEstimator , }
 
 
+
 spec fn nib(bytes: Seq<u8>, i: int) -> u8 { if i % 2 == 0 { bytes[i / 2] & 15 } else { bytes[i / 2] >> 4 } }
 
 proof fn lemma_k(l: u8) requires 4 <= l <= 21 ensures 16 <= pow2(l as nat) <= 0x20_0000, pow2(l as nat) % 2 == 0, (1u32 << l) == pow2(l as nat), pow2((l - 1) as nat) * 2 == pow2(l as nat) {
@@ -170,6 +179,46 @@ impl Array4 {
 
     /// Get raw 4-bit value from slot (not adjusted for cur_min)
     #[inline]
+    fn new ( lg_config_k : u8 ) -> ( r : Self ) requires 4 <= lg_config_k <= 21 ensures
+/*@C02.init_wf*/ r . wf2 ( ) , r . lg_config_k == lg_config_k ,
+/*@C02.init*/ forall | i : int | 0 <= i < pow2 ( lg_config_k as nat ) ==> r . reg ( i ) == 0 ,
+/*@C02.init_log*/ r . estimator . log ( ) == Seq :: < ( u8 , u8 ) > :: empty ( ) , {
+proof {
+lemma_k ( lg_config_k ) ;
+lemma_shl_usize ( ( lg_config_k - 1 ) as u8 ) ;
+}
+let num_bytes = 1 << ( lg_config_k - 1 ) ;
+let num_at_cur_min = 1 << lg_config_k ;
+proof {
+assert forall | a : Array4 | a . lg_config_k == lg_config_k && a . cur_min == 0 && a . num_at_cur_min == num_at_cur_min && a . aux_map is None && a . bytes @ . len ( ) == num_bytes && ( forall | x : int | 0 <= x < a . bytes @ . len ( ) ==> a . bytes @ [ x ] == 0u8 ) implies # [ trigger ] a . wf2 ( ) && ( forall | i : int | 0 <= i < pow2 ( lg_config_k as nat ) ==> a . reg ( i ) == 0 ) by {
+lemma_new4 ( a ) ;
+}
+}
+Self {
+lg_config_k , bytes : vec! [ 0u8 ;
+num_bytes ] . into_boxed_slice ( ) , cur_min : 0 , num_at_cur_min , aux_map : None , estimator : HipEstimator :: new ( lg_config_k ) , }
+}
+
+
+    fn get ( & self , slot : u32 ) -> ( r : u8 ) requires self . wf ( ) , slot < self . k ( ) ensures
+/*@C02.get*/ r as int == self . reg ( slot as int ) {
+proof {
+self . lemma_reg_ge ( slot as int ) ;
+}
+let raw = self . get_raw ( slot ) ;
+if raw < AUX_TOKEN {
+self . cur_min + raw }
+else {
+self . aux_map . as_ref ( ) . and_then ( | map : & AuxMap | -> ( r : Option < u8 > ) requires map . awf ( ) , slot < pow2 ( map . lgk ( ) as nat ) ensures r == ( if map . view ( ) . dom ( ) . contains ( slot ) {
+Some ( map . view ( ) [ slot ] ) }
+else {
+None :: < u8 > }
+) {
+map . get ( slot ) }
+) . unwrap_or ( self . cur_min ) }
+}
+
+
     fn get_raw ( & self , slot : u32 ) -> ( r : u8 ) requires 4 <= self . lg_config_k <= 21 , self . bytes @ . len ( ) * 2 == self . k ( ) , slot < self . k ( ) ensures r == nib ( self . bytes @ , slot as int ) , r <= 15 {
 proof {
 lemma_k ( self . lg_config_k ) ;
@@ -187,6 +236,7 @@ byte & 15 }
 else {
 byte >> 4 }
 }
+
 
 
     /// Set raw 4-bit value in slot
@@ -217,6 +267,7 @@ else {
 ( old_byte & 0x0F ) | ( value << 4 ) }
 ;
 }
+
 
 
     spec fn cnt_at(&self, v: int, n: int) -> int { pcnt(self.cur_min, self.bytes@, self.auxv(), v, n) }
@@ -357,6 +408,7 @@ lemma_shift_done ( lg , c0 , b0 , a0 , b2 , a2 ) ;
 lemma_cnt_one ( lg , c0 , b0 , a0 , b2 , a2 , kk ) ;
 }
 }
+
 
 
     fn update ( & mut self , coupon : u32 ) requires old ( self ) . wf2 ( ) ensures
@@ -519,6 +571,7 @@ self . shift_to_bigger_cur_min ( ) ;
 }
 
 
+
     proof fn lemma_reg_ge(&self, i: int)
       requires self.wf(), 0 <= i < self.k()
       ensures self.reg(i) >= self.cur_min, nib(self.bytes@, i) < 15 ==> self.reg(i) == self.cur_min + nib(self.bytes@, i), nib(self.bytes@, i) <= 15,
@@ -541,6 +594,36 @@ self . shift_to_bigger_cur_min ( ) ;
     {
         if n > 0 { self.lemma_cnt_update(pre, slot, n - 1); assert(self.reg(n - 1) == (if n - 1 == slot { self.reg(slot) } else { pre.reg(n - 1) })); }
     }
+}
+proof fn lemma_shl_usize(l: u8)
+  requires l <= 21
+  ensures (1usize << l) == pow2(l as nat)
+{
+    lemma2_to64();
+    lemma_pow2_strictly_increases(l as nat, 22);
+    vstd::bits::lemma_usize_shl_is_mul(1, l as usize);
+    assert((1usize << (l as usize)) == (1usize << l));
+}
+proof fn lemma_pcnt_all(c: u8, b: Seq<u8>, a: IMap<u32, u8>, v: int, n: int)
+  requires forall|i: int| 0 <= i < n ==> #[trigger] preg(c, b, a, i) == v
+  ensures pcnt(c, b, a, v, n) == (if n >= 0 { n } else { 0 })
+  decreases n
+{
+    if n > 0 { lemma_pcnt_all(c, b, a, v, n - 1); }
+}
+proof fn lemma_new4(a: Array4)
+  requires 4 <= a.lg_config_k <= 21, a.cur_min == 0, a.num_at_cur_min == a.k(), a.aux_map is None, a.bytes@.len() * 2 == a.k(),
+    forall|x: int| 0 <= x < a.bytes@.len() ==> a.bytes@[x] == 0u8
+  ensures a.wf2(), forall|i: int| 0 <= i < a.k() ==> a.reg(i) == 0
+{
+    lemma_k(a.lg_config_k);
+    assert(0u8 & 15 == 0u8) by (bit_vector);
+    assert(0u8 >> 4 == 0u8) by (bit_vector);
+    assert forall|i: int| 0 <= i < a.k() implies nib(a.bytes@, i) == 0 && #[trigger] preg(a.cur_min, a.bytes@, a.auxv(), i) == 0 by {
+        assert(a.bytes@[i / 2] == 0u8);
+    }
+    assert(a.auxv().dom() =~= ISet::<u32>::empty());
+    lemma_pcnt_all(a.cur_min, a.bytes@, a.auxv(), 0, a.k());
 }
 proof fn lemma_mask(x: u32, l: u8)
   requires 4 <= l <= 21
